@@ -161,6 +161,7 @@ func runCheck(root, prop, tier string, makeBaseline, verbose, keep bool, onlyFn 
 	var obls []*Obligation
 	var reports []fnReport
 	var binding []string
+	var bindingFns []*Contract
 	var trustedFns []string
 	for _, con := range cons {
 		fn := eng.funcs[con.Key]
@@ -172,11 +173,12 @@ func runCheck(root, prop, tier string, makeBaseline, verbose, keep bool, onlyFn 
 			trustedFns = append(trustedFns, shortFunc(con.Key))
 			continue
 		}
-		ctx, err := eng.verifyFunction(fn, con)
+		ctx, err := eng.verifyFunction(fn, con, 0)
 		rep := fnReport{Key: shortFunc(con.Key)}
 		if err != nil {
 			rep.Error = err.Error()
 			binding = append(binding, err.Error())
+			bindingFns = append(bindingFns, con)
 			reports = append(reports, rep)
 			continue
 		}
@@ -267,6 +269,7 @@ func runCheck(root, prop, tier string, makeBaseline, verbose, keep bool, onlyFn 
 	}
 	exit := 0
 	violations := 0
+	boundedDone := map[string]string{}
 	var lines []string
 	replayDir := filepath.Join(root, "replays", prop)
 	os.RemoveAll(replayDir)
@@ -284,6 +287,12 @@ func runCheck(root, prop, tier string, makeBaseline, verbose, keep bool, onlyFn 
 		}
 		violations++
 		path, replayed := writeReplay(eng, replayDir, prop, o)
+		if !replayed {
+			// bounded stand-in search for a concrete failing input of this function
+			if bp, ok := boundedSearch(eng, o.ctx.fn, o.ctx.con, work, replayDir, prop, boundedDone); ok {
+				path, replayed = bp, true
+			}
+		}
 		suffix := ""
 		if !replayed {
 			suffix = " no-failing-input-found"
@@ -291,8 +300,22 @@ func runCheck(root, prop, tier string, makeBaseline, verbose, keep bool, onlyFn 
 		lines = append(lines, fmt.Sprintf("VIOLATION property=%s replay=%s obligation=%s at=%s%s", prop, path, o.Key, o.Pos, suffix))
 		exit = 1
 	}
+	// functions whose contract no longer binds: only a replayed failing input counts
+	for _, con := range bindingFns {
+		if fn := eng.funcs[con.Key]; fn != nil {
+			if bp, ok := boundedSearch(eng, fn, con, work, replayDir, prop, boundedDone); ok {
+				violations++
+				exit = 1
+				lines = append(lines, fmt.Sprintf("VIOLATION property=%s replay=%s obligation=%s/bounded at=%s", prop, bp, shortFunc(con.Key), ""))
+			}
+		}
+	}
 	toolErr := false
 	for _, o := range canaryBad {
+		if violations > 0 {
+			lines = append(lines, fmt.Sprintf("NOTE property=%s canary %s is provable on this tree (a violation is reported, so the canary is not a vacuity signal)", prop, o.Key))
+			continue
+		}
 		lines = append(lines, fmt.Sprintf("TOOL-ERROR property=%s canary %s was proved: the check is vacuous", prop, o.Key))
 		toolErr = true
 	}
@@ -428,7 +451,7 @@ func writeReplay(eng *Engine, dir, prop string, o *Obligation) (string, bool) {
 	rec["solver_outputs"] = outs
 	replayed := false
 	if o.Result.Status == "sat" {
-		if rp := tryReplay(eng, o, dir, name); rp != nil {
+		if rp := safeReplay(eng, o, dir, name); rp != nil {
 			rec["replay"] = rp
 			if ok, _ := rp["confirmed"].(bool); ok {
 				replayed = true
@@ -438,6 +461,47 @@ func writeReplay(eng *Engine, dir, prop string, o *Obligation) (string, bool) {
 	b, _ := json.MarshalIndent(rec, "", " ")
 	os.WriteFile(path, append(b, '\n'), 0o644)
 	return path, replayed
+}
+
+// boundedSearch re-runs one function with every loop explored up to three
+// iterations (a bounded stand-in, never counted as proof) and looks for a
+// model of a failed postcondition or safety obligation that replays as a
+// real failure. It returns the replay record of the first confirmed one.
+func boundedSearch(eng *Engine, fn *ssa.Function, con *Contract, work, replayDir, prop string, done map[string]string) (string, bool) {
+	if p, ok := done[con.Key]; ok {
+		return p, p != ""
+	}
+	done[con.Key] = ""
+	ctx, err := eng.verifyFunction(fn, con, 3)
+	if err != nil || ctx == nil {
+		return "", false
+	}
+	var cand []*Obligation
+	for _, o := range ctx.obls {
+		if o.Canary || o.Cover {
+			continue
+		}
+		switch o.Kind {
+		case "post", "bounds", "nil", "div", "panic", "pre-panic", "conv":
+			o.Key += "/bounded"
+			cand = append(cand, o)
+		}
+	}
+	if len(cand) == 0 {
+		return "", false
+	}
+	eng.discharge(cand, filepath.Join(work, "bounded"), 6, true, 14)
+	for _, o := range cand {
+		if o.Result == nil || o.Result.Status != "sat" {
+			continue
+		}
+		path, ok := writeReplay(eng, replayDir, prop, o)
+		if ok {
+			done[con.Key] = path
+			return path, true
+		}
+	}
+	return "", false
 }
 
 var _ = ssa.GlobalDebug
